@@ -136,7 +136,11 @@ def run(ctx):
             meta.append(dict(inp=inp, impl=str(err) if err else dict(len=len(y), start=None if y.start_time is None else y.start_time.isot)))
         # --- (M) monitor against the intended request
         if bad is not None:
-            if err is None:
+            if err is None and form in ('time', 'quantity') and bad in ('t<0', 't+n>len') and teff >= 0 and teff + n <= L and n >= 0:
+                # the excess over the range is below what a Time / duration can express at this sample rate ("the same instant up to
+                # time resolution"): the instant the code receives is inside the range
+                ctx.count('out_of_range_by_less_than_time_resolution')
+            elif err is None:
                 ctx.fail('out_of_range_request_did_not_raise', inp, impl=dict(len=len(y)))
             continue
         if err is not None:
